@@ -1,6 +1,7 @@
 package sim
 
 import (
+	"sync/atomic"
 	"bytes"
 	"encoding/json"
 	"fmt"
@@ -59,6 +60,7 @@ func (f FileState) String() string {
 }
 
 type Outcome struct {
+	SmallDisk bool // the working directory really was a file system of the scenario's capacity
 	Exit     int
 	Signal   int
 	TimedOut bool
@@ -115,6 +117,8 @@ func harnessPanic(format string, a ...any) {
 	panic(&HarnessError{fmt.Sprintf(format, a...)})
 }
 
+var smallDiskUnavailable atomic.Bool
+
 func (w *World) sandbox(slot int) (root string) {
 	return filepath.Join(w.ShmRoot, "s"+strconv.Itoa(slot))
 }
@@ -122,10 +126,20 @@ func (w *World) sandbox(slot int) (root string) {
 // Run executes one scenario in a fresh process inside a fresh sandbox.
 func (w *World) Run(sc *Scenario, o RunOpts) *Outcome {
 	root := w.sandbox(o.Slot)
-	_ = os.RemoveAll(root)
 	work := filepath.Join(root, "work")
+	_ = syscall.Unmount(work, syscall.MNT_DETACH) // a small disk left behind by an interrupted run
+	_ = os.RemoveAll(root)
 	if err := os.MkdirAll(work, 0755); err != nil {
 		harnessPanic("mkdir %v", err)
+	}
+	smallDisk := false
+	if sc.DiskKiB > 0 && !smallDiskUnavailable.Load() {
+		if err := syscall.Mount("tmpfs", work, "tmpfs", 0, fmt.Sprintf("size=%dk,mode=0755", sc.DiskKiB)); err != nil {
+			smallDiskUnavailable.Store(true) // no privilege to mount here: the fault kind is reported as not injected
+		} else {
+			smallDisk = true
+			defer func() { _ = syscall.Unmount(work, syscall.MNT_DETACH) }()
+		}
 	}
 	tmp := filepath.Join(root, "tmp")
 	if sc.TmpOther {
@@ -311,7 +325,7 @@ func (w *World) Run(sc *Scenario, o RunOpts) *Outcome {
 	}
 	done := make(chan error, 1)
 	go func() { done <- cmd.Wait() }()
-	out := &Outcome{}
+	out := &Outcome{SmallDisk: smallDisk}
 	wd := w.Watchdog
 	if wd == 0 {
 		wd = 20 * time.Second
